@@ -81,6 +81,7 @@ func vxFSLines(path string) []string
 func vxFSHasPartialLine(path string) bool
 func vxFSList(dir string) []string
 func vxFSRemoveTemp()
+func vxFSRemoveTempDirsOnly()
 func vxEvCount() int
 func vxEvOp(i int) string
 func vxEvArg(i, k int) string
